@@ -465,3 +465,11 @@ func init() {
 		c.ok("dbg", "y", "", "")
 	})
 }
+
+func init() {
+	register("MEMO", func(c *Ctx) {
+		n := memoKeyRule(c, "memo-key", func(string) bool { return true })
+		fmt.Println("memo sites:", n)
+		c.ok("dbg", "x", "", "")
+	})
+}
